@@ -2,10 +2,12 @@
 package mc
 
 import (
+	"bufio"
 	"bytes"
 	"errors"
 	"fmt"
 	"io"
+	"os"
 	"sort"
 
 	"github.com/foxglove/mcap/go/mcap"
@@ -143,6 +145,9 @@ func CallsReuse(w *wl.Workload, mo MapOrder, attSrc func(a *wl.Attachment) io.Re
 			if len(a.Data) == 0 && a.CreateTime%2 == 1 {
 				return nil // "no data" said the obvious way: DataSize 0 and no reader at all
 			}
+			if (len(a.Data)+int(a.LogTime%5))%3 == 1 {
+				return plainReader{bytes.NewReader(a.Data)} // nothing but Read: no Len, no WriteTo, no Seek
+			}
 			return bytes.NewReader(a.Data)
 		}
 	}
@@ -248,10 +253,79 @@ func Write(sink io.Writer, w *wl.Workload, k wl.Config) (*mcap.Writer, error) {
 	return mw, nil
 }
 
+// plainWriter hides every method of its destination except Write.
+type plainWriter struct{ w io.Writer }
+
+func (p plainWriter) Write(b []byte) (int, error) { return p.w.Write(b) }
+
+// WriteBytes writes the workload and returns the file. What the writer is given as its destination rotates
+// (deterministically, from the case) over a *bytes.Buffer (which also offers ReadFrom, WriteString, Len, ...),
+// a destination that offers nothing but Write, and a real *os.File: the bytes must not depend on it.
 func WriteBytes(w *wl.Workload, k wl.Config) ([]byte, *mcap.Writer, error) {
 	var buf bytes.Buffer
+	switch (len(w.Ops)*7 + int(k.ChunkSize) + len(k.Compression)) % 8 {
+	case 1, 2, 3:
+		mw, err := Write(plainWriter{&buf}, w, k)
+		return buf.Bytes(), mw, err
+	case 4:
+		f, err := os.CreateTemp(os.Getenv("VERIF_SCRATCH_DIR"), "sink-*.mcap")
+		if err != nil {
+			break
+		}
+		defer os.Remove(f.Name())
+		defer f.Close()
+		mw, werr := Write(f, w, k)
+		b, rerr := os.ReadFile(f.Name())
+		if rerr != nil {
+			return nil, mw, rerr
+		}
+		return b, mw, werr
+	}
 	mw, err := Write(&buf, w, k)
 	return buf.Bytes(), mw, err
+}
+
+// plainReader hides every method of its source except Read; seekOnly leaves Read and Seek.
+type plainReader struct{ r io.Reader }
+
+func (p plainReader) Read(b []byte) (int, error) { return p.r.Read(b) }
+
+type seekOnly struct{ r io.ReadSeeker }
+
+func (p seekOnly) Read(b []byte) (int, error)         { return p.r.Read(b) }
+func (p seekOnly) Seek(o int64, w int) (int64, error) { return p.r.Seek(o, w) }
+
+// varySource replaces the harness' default in-memory source (*bytes.Reader: Read, Seek, ReadAt, WriteTo, Len,
+// ...) by sources with fewer or other methods, chosen deterministically from the content: what is read must
+// not depend on which optional interfaces the source happens to implement.
+func varySource(r io.Reader, needSeek bool) (io.Reader, func()) {
+	br, ok := r.(*bytes.Reader)
+	if !ok || br.Size() != int64(br.Len()) {
+		return r, func() {}
+	}
+	switch k := br.Len() % 8; {
+	case k == 1 || k == 2:
+		return seekOnly{br}, func() {}
+	case k == 3 && !needSeek:
+		return plainReader{br}, func() {}
+	case k == 4 && !needSeek:
+		return bufio.NewReaderSize(br, 16), func() {}
+	case k == 5:
+		f, err := os.CreateTemp(os.Getenv("VERIF_SCRATCH_DIR"), "source-*.mcap")
+		if err != nil {
+			return r, func() {}
+		}
+		b := make([]byte, br.Len())
+		_, _ = br.ReadAt(b, 0)
+		if _, err := f.Write(b); err != nil {
+			f.Close()
+			os.Remove(f.Name())
+			return r, func() {}
+		}
+		_, _ = f.Seek(0, io.SeekStart)
+		return f, func() { f.Close(); os.Remove(f.Name()) }
+	}
+	return r, func() {}
 }
 
 // ---- reading
@@ -383,6 +457,8 @@ func LexAll(r io.Reader, p LexParams, keepRaw bool) (res LexResult) {
 			return nil
 		}
 	}
+	r, done := varySource(r, false)
+	defer done()
 	lx, err := mcap.NewLexer(r, opts)
 	if err != nil {
 		res.OpenErr = err
@@ -518,6 +594,8 @@ func ReadMessagesMode(r io.Reader, mode int, withMetaCB bool, keepOrig bool, max
 			res.Panic = fmt.Sprint(x)
 		}
 	}()
+	r, done := varySource(r, true)
+	defer done()
 	rd, err := mcap.NewReader(r)
 	if err != nil {
 		res.OpenErr = err
